@@ -277,7 +277,10 @@ def run_check(mod, pid, tier, seed, args, workdir, t0):
         print("impl :", json.dumps(rec["impl"], default=str))
         print("model:", json.dumps(rec["dec"].get("model"), default=str))
         print("spec :", json.dumps(rec["dec"].get("spec"), default=str))
-        ok = rec["impl"] == rec["dec"].get("spec") or not rec["dec"].get("in_domain", True)
+        project = getattr(mod, "project", lambda c, res, dec: res)
+        pim = json.loads(json.dumps(project(case, rec["impl"], rec["dec"]), default=str))
+        print("impl (projected to the specification's observables):", json.dumps(pim, default=str))
+        ok = pim == rec["dec"].get("spec") or not rec["dec"].get("in_domain", True)
         print("agree" if ok else f"VIOLATION property={pid} replay={args.replay}")
         return 0 if ok else 1
 
@@ -317,9 +320,15 @@ def run_check(mod, pid, tier, seed, args, workdir, t0):
     first_viol = None
     first_corr = None
     n_viol = n_corr = 0
+    n_skip = 0
+    project = getattr(mod, "project", lambda c, res, dec: res)
     for r in recs:
         c, impl, dec = r["case"], r["impl"], r["dec"]
         h = case_hash(c)
+        try:
+            pimpl = json.loads(json.dumps(project(c, impl, dec), default=str))
+        except Exception as e:
+            pimpl = {"project_failed": str(e)}
         if hasattr(mod, "classify"):
             for tag in mod.classify(c, impl):
                 dist[tag] = dist.get(tag, 0) + 1
@@ -327,6 +336,9 @@ def run_check(mod, pid, tier, seed, args, workdir, t0):
             n_corr += 1
             if first_corr is None:
                 first_corr = (c, impl, dec)
+            continue
+        if dec.get("skip"):
+            n_skip += 1
             continue
         if mod.nontrivial(c, impl):
             distinct.add(h)
@@ -337,7 +349,7 @@ def run_check(mod, pid, tier, seed, args, workdir, t0):
             kid = mod.known(c, impl, dec)
         if kid is not None:
             listed = [k for k in known_for if k.get("id") == kid]
-            if impl != dec.get("spec"):
+            if pimpl != dec.get("spec"):
                 if listed:
                     known_hit.setdefault(kid, c)
                     continue
@@ -346,7 +358,7 @@ def run_check(mod, pid, tier, seed, args, workdir, t0):
                 continue
         if dec.get("in_domain", True):
             n_in += 1
-            if impl != dec.get("spec"):
+            if pimpl != dec.get("spec"):
                 n_viol += 1
                 if first_viol is None:
                     first_viol = (c, impl, dec)
@@ -372,7 +384,7 @@ def run_check(mod, pid, tier, seed, args, workdir, t0):
         if hasattr(mod, "shrink"):
             try:
                 c2 = mod.shrink(c, lambda cc: (lambda r: r["dec"].get("in_domain", True) and not r["dec"].get("driver_error")
-                                                and r["impl"] != r["dec"].get("spec"))(evaluate(mod, [cc])[0]))
+                                                and json.loads(json.dumps(project(cc, r["impl"], r["dec"]), default=str)) != r["dec"].get("spec"))(evaluate(mod, [cc])[0]))
                 if c2 is not None:
                     r2 = evaluate(mod, [c2])[0]
                     c, impl, dec = c2, r2["impl"], r2["dec"]
@@ -421,6 +433,7 @@ def run_check(mod, pid, tier, seed, args, workdir, t0):
             "traces_validated_against_impl": len(recs),
             "in_domain": n_in,
             "outside_domain": n_out,
+            "outside_model_skipped": n_skip,
             "model_drift_outside_domain": drift,
             "corpus_cases": len(corpus),
             "input_distribution": dist,
